@@ -477,53 +477,6 @@ fn run_inner(r: &C20Replay, stats: &mut Stats, sample: Option<&mut Vec<String>>)
     None
 }
 
-fn shrink_candidates(d: &ADoc) -> Vec<ADoc> {
-    let mut out = vec![];
-    for i in 0..d.before.len() {
-        let mut c = d.clone();
-        c.before.remove(i);
-        out.push(c);
-    }
-    for i in 0..d.after.len() {
-        let mut c = d.clone();
-        c.after.remove(i);
-        out.push(c);
-    }
-    fn elem_variants(e: &AElem) -> Vec<AElem> {
-        let mut out = vec![];
-        for i in 0..e.kids.len() {
-            let mut c = e.clone();
-            c.kids.remove(i);
-            // never create adjacent text
-            let adj = c.kids.windows(2).any(|w| matches!((&w[0], &w[1]), (AContent::Text(_), AContent::Text(_))));
-            if !adj {
-                out.push(c);
-            }
-        }
-        for i in 0..e.attrs.len() {
-            let mut c = e.clone();
-            c.attrs.remove(i);
-            out.push(c);
-        }
-        for (i, k) in e.kids.iter().enumerate() {
-            if let AContent::Elem(ch) = k {
-                for var in elem_variants(ch) {
-                    let mut c = e.clone();
-                    c.kids[i] = AContent::Elem(var);
-                    out.push(c);
-                }
-            }
-        }
-        out
-    }
-    for var in elem_variants(&d.root) {
-        let mut c = d.clone();
-        c.root = var;
-        out.push(c);
-    }
-    out
-}
-
 impl PropEngine for C20Engine {
     fn id(&self) -> &'static str {
         "C20"
@@ -584,7 +537,7 @@ impl PropEngine for C20Engine {
         let mut progress = true;
         while progress {
             progress = false;
-            for cand in shrink_candidates(&r.doc) {
+            for cand in absdoc::shrink_candidates(&r.doc) {
                 let mut c = r.clone();
                 c.doc = cand;
                 if let Some(v2) = run_replay(&c, &mut st, None) {
